@@ -652,7 +652,8 @@ where
         }
         // check this ???
         let rssi = ((-(pkt_status[0] as i32)) >> 1) as i16;
-        let snr = (((pkt_status[1] as i8) + 2) >> 2) as i16;
+        // widen before adding: a raw value of 126 or 127 must not overflow the i8
+        let snr = ((pkt_status[1] as i8) as i16 + 2) >> 2;
         let _signal_rssi = ((-(pkt_status[2] as i32)) >> 1) as i16; // unused currently
 
         Ok(PacketStatus { rssi, snr })
